@@ -66,17 +66,31 @@ R.contract("Avp.as_bytes", params={"self": "Avp"}, returns="bytes",
 
 
 # ---- dictionary -----------------------------------------------------------------------------------
+# The two AVP tables of diameter.message.avp.dictionary are module-level state (avp.register() adds rows at run time):
+# modelled as global tables; dict_known / dict_entry read them in the current state.
+R.global_value("AVP_DICTIONARY", "Dict[int,AvpInfo]")
+R.global_value("AVP_VENDOR_DICTIONARY", "Dict[int,Dict[int,AvpInfo]]")
+
+
+def _dict_terms(ex, st, code, vendor):
+    from pyvc.smt import Ite, And
+    D = ex.resolve_global("AVP_DICTIONARY", spec=True)
+    VD = ex.resolve_global("AVP_VENDOR_DICTIONARY", spec=True)
+    c, v = ex.num(code), ex.num(vendor)
+    inner = ex.dict_get(st, VD, v)
+    known = Ite(Eq(v, I(0)), ex.dict_has(st, D, c), And(ex.dict_has(st, VD, v), ex.dict_has(st, inner, c)))
+    entry = Ite(Eq(v, I(0)), ex.dict_get(st, D, c).t, ex.dict_get(st, inner, c).t)
+    return known, entry
+
+
 @R.specfn("dict_known")
 def _dict_known(ex, st, code, vendor):
-    ex.decls.fun("dict_known", [INT, INT], BOOL)
-    return VBool(app("dict_known", BOOL, ex.num(code), ex.num(vendor)))
+    return VBool(_dict_terms(ex, st, code, vendor)[0])
 
 
 @R.specfn("dict_entry")
 def _dict_entry(ex, st, code, vendor):
-    ex.decls.fun("dict_entry", [INT, INT], INT)
-    t = app("dict_entry", INT, ex.num(code), ex.num(vendor))
-    return VRef(t, "AvpInfo")
+    return VRef(_dict_terms(ex, st, code, vendor)[1], "AvpInfo")
 
 
 @R.specfn("avp_class_ok")
@@ -87,12 +101,41 @@ def _avp_class_ok(ex, st, tok):
     return VBool(Or(*[Eq(ex.unwrap(tok).t, i) for i in ids]))
 
 
+R.object_invariant("AvpInfo", "avp_class_ok(self.type)")
+R.assume("table invariant: every row of the AVP tables names an Avp subclass as its type (ground obligations C01.dict[*] for "
+         "the rows present at import; avp.register requires it of the rows it adds)")
 R.contract("get_avp_dictionary_entry", params={"avp_code": "int", "vendor_id": "int"},
-           returns="Opt[AvpInfo]", trusted=True,
+           returns="Opt[AvpInfo]",
            ensures=["is_none(result) == (not dict_known(avp_code, vendor_id))",
                     "implies(not is_none(result), some(result) == dict_entry(avp_code, vendor_id) "
                     "and avp_class_ok(some(result).type))"],
-           note="ground: evaluated exhaustively on the real dictionary (C01.dict rows)")
+           raises=[], props=["C01", "C04"],
+           note="the lookup itself is verified against the two tables (it raises nothing, also for unknown vendors)")
+R.assume("table invariant (assumed): AVP_DICTIONARY and the per-vendor tables of AVP_VENDOR_DICTIONARY are pairwise distinct "
+         "dict objects (they are separate dict displays in dictionary.py; register creates new ones with {})")
+R.kind_hints[("register", "{}")] = "Dict[int,AvpInfo]"
+R.contract("diameter.message.avp.avp.register", params={"avp": "int", "name": "str", "type_cls": "Any:avpclass", "vendor": "Opt[int]", "mandatory": "Opt[bool]"},
+           ghost={"c2": "int", "v2": "int"},
+           requires=[("type-is-an-avp-class", "avp_class_ok(type_cls)")],
+           assume_pre=[("tables-are-separate-objects",
+                        "implies(v2 in AVP_VENDOR_DICTIONARY, AVP_VENDOR_DICTIONARY[v2] != AVP_DICTIONARY) and "
+                        "implies(not is_none(vendor) and some(vendor) in AVP_VENDOR_DICTIONARY, "
+                        "AVP_VENDOR_DICTIONARY[some(vendor)] != AVP_DICTIONARY and "
+                        "implies(v2 in AVP_VENDOR_DICTIONARY and v2 != some(vendor), "
+                        "AVP_VENDOR_DICTIONARY[v2] != AVP_VENDOR_DICTIONARY[some(vendor)]))")],
+           ensures=[("the-registered-avp-is-found",
+                     "implies(is_none(vendor) or some(vendor) != 0, dict_known(avp, ite(is_none(vendor), 0, some(vendor))) and "
+                     "dict_entry(avp, ite(is_none(vendor), 0, some(vendor))).name == name and "
+                     "dict_entry(avp, ite(is_none(vendor), 0, some(vendor))).type == type_cls and "
+                     "dict_entry(avp, ite(is_none(vendor), 0, some(vendor))).mandatory == mandatory)"),
+                    ("other-rows-are-untouched",
+                     "implies(not (c2 == avp and v2 == ite(is_none(vendor), 0, some(vendor))), "
+                     "dict_known(c2, v2) == old(dict_known(c2, v2)) and "
+                     "implies(dict_known(c2, v2), dict_entry(c2, v2) == old(dict_entry(c2, v2))))")],
+           raises=[], modifies=["dict:AVP_DICTIONARY", "dict:AVP_VENDOR_DICTIONARY", "*dict:Dict[int,AvpInfo]"],
+           props=["C01"],
+           note="register(vendor=0) writes AVP_VENDOR_DICTIONARY[0], which the lookup never reads (vendor 0 is looked up in "
+                "AVP_DICTIONARY): stated by the guard of the first clause")
 
 
 @R.specfn("call_opaque")
